@@ -2134,6 +2134,17 @@ def call_builtin(eng, name, args, kwargs, node, frame):
         return instantiate(eng, eng.ct.ext[name.split(".")[1]], args, kwargs, node, frame)
     if name == "itertools.chain.from_iterable" or name == "chain.from_iterable":
         return chain_from_iterable(eng, args[0], node, frame)
+    if name == "hash" and len(args) == 1 and not kwargs:
+        # hash(x): some integer determined by x (nothing else is assumed about it - in particular not injectivity);
+        # tuples of values are hashed through their concrete components' terms
+        a0 = args[0]
+        if isinstance(a0, TupleVal):
+            comps = [eng.to_tv(x).val() if isinstance(x, TV) or not isinstance(x, PyObj) else None for x in a0.items]
+            if all(c_ is not None for c_ in comps):
+                hf = z3.Function(f"py_hash_tuple{len(comps)}", *([S.Val] * len(comps) + [z3.IntSort()]))
+                return tv_int(hf(*comps))
+            return tv_int(z3.Int(run.fresh_name("hash")))
+        return tv_int(z3.Function("py_hash", S.Val, z3.IntSort())(eng.to_tv(a0).val()))
     if name == "sorted":
         raise _U("sorted")
     if name == "setattr":
